@@ -66,7 +66,10 @@ class Repo(object):
                 self.normalize_log.extend("%s: %s" % (rel, l) for l in log)
             for n in ast.walk(t):
                 for c in ast.iter_child_nodes(n):
-                    c._parent = n
+                    # Load / Store / Add / Eq ... are interpreter-wide singletons shared by every parsed tree: a back pointer on them would chain
+                    # all trees together (and make every copy.deepcopy of a Name copy a whole module)
+                    if not isinstance(c, (ast.expr_context, ast.operator, ast.unaryop, ast.boolop, ast.cmpop)):
+                        c._parent = n
             t._rel = rel
             self._tree[rel] = t
         return self._tree[rel]
